@@ -44,7 +44,8 @@ Proof.
   intros [K Q]. unfold run_op.
   assert (E : nth i (r_lives (fst (run_op1 ideal r o))) None = nth i (r_lives r) None).
   { destruct o; cbn in Q |- *; auto;
-      try (destruct (get_batch r _) as [h0' st0]; reflexivity).
+      try (destruct (get_batch r _) as [h0' st0]; reflexivity);
+      try (destruct (get_batch r src) as [h1' st1]; destruct (get_batch r dst) as [h2' st2]; reflexivity).
     - now apply nth_set_nth_other.
     - unfold live_next. destruct (nth i0 (r_lives r) None); cbn; auto. now apply nth_set_nth_other.
     - now apply nth_set_nth_other. }
